@@ -25,7 +25,7 @@ RULE = ("two inverter objects (all ordered pairs of 8 templates: ET 205 eco-v2 /
         "distinct = distinct (template pair, call sequences, interleaving) tuples")
 ASSUMPTIONS = ["results are compared by type name, str() and (for eco-mode / schedule values) their public fields",
                "each transcript runs in its own interpreter started by the check (subprocess per transcript)"]
-MUST = ["pairs_with_an_unreachable_inverter", "values_kept_while_registers_change", "same_model_different_capabilities_pairs", "retransmitting_pairs", "transcripts", "interleavings_compared", "concurrent_interleavings", "snapshots_checked", "eco_values_snapshotted",
+MUST = ["pairs_with_settings_one_unit_refuses", "pairs_with_an_unreachable_inverter", "values_kept_while_registers_change", "same_model_different_capabilities_pairs", "retransmitting_pairs", "transcripts", "interleavings_compared", "concurrent_interleavings", "snapshots_checked", "eco_values_snapshotted",
         "cross_family_pairs", "same_template_pairs", "requests_compared", "concurrent_with_fragmented_answers", "long_history_pairs", "same_host_pairs", "drifting_measurements_pairs"]
 EXHAUSTIVE = {"quick": False, "thorough": False}
 
@@ -59,12 +59,18 @@ def build_sim(tpl, seed, owner):
         sim.regs[47510] = rnd.randrange(0, 10000)
         sim.regs[45356] = rnd.randrange(0, 100)
         sim.set_bytes(45200, bytes([24, 5, 17, 12, 30, 15]))
+        if tpl == "ETs":                # same model name, but this unit's firmware refuses some SETTING registers
+            sim.refused = list(sim.refused) + [(45356, 45356), (47509, 47510), (47000, 47000)]
         if tpl == "ETc":                # the inverter's clock was never set: an impossible date in the runtime block
             sim.set_bytes(35100, bytes(6))
         return sim
-    if tpl in ("DT", "DTu", "DTc", "DTn"):
+    if tpl in ("DT", "DTu", "DTc", "DTn", "DTs"):
         # (DTn: same model name, no smart meter attached: the meter block is refused)
         sim = models.dt_sim(owner, tag=rnd.choice(("DTU", "DSN")), rnd=rnd, style="random", refused_blocks=["meter"] if tpl == "DTn" else [])
+        if tpl == "DTs":                # same model name, older firmware: the shadow-scan and hardware export-limit settings are refused
+            sim.refused = list(sim.refused) + [(40326, 40326), (40345, 40362)]
+            for a in (40326, 40345, 40347, 40352, 40353, 40362):
+                sim.regs[a] = rnd.randrange(1, 100)
         if tpl == "DTc":
             sim.set_bytes(30100, bytes(6))
         if tpl == "DTu":                # undefined (all-ones) counters and values on this inverter
@@ -311,6 +317,8 @@ def scenario_check(sc, part, workdir):
         part.count("retransmitting_pairs")
     if sc.get("capabilities"):
         part.count("same_model_different_capabilities_pairs")
+    if sc.get("settings_refused"):
+        part.count("pairs_with_settings_one_unit_refuses")
     if sc.get("changing"):
         part.count("values_kept_while_registers_change")
     if sc.get("unreachable"):
@@ -418,6 +426,14 @@ def capability_scenarios(seed):
         out.append({"seed": f"{seed}:capmany:{a}:{b}", "n_random_merges": 2, "n_concurrent": 0, "capabilities": True,
                     "objects": [{"template": a, "port": 8899, "seed": f"{seed}:mA{len(out)}", "calls": [["read_runtime_data"]] * na},
                                 {"template": b, "port": 8899, "seed": f"{seed}:mB{len(out)}", "calls": [["read_runtime_data"]] * nb}]})
+    # ... and settings one unit refuses while the other serves them (each object learns about ITS inverter only)
+    dt_set = [["read_setting", x] for x in ("shadow_scan_pv1", "grid_export_hw", "shadow_scan_pv2", "shadow_scan_pv1_time", "grid_export_limit", "shadow_scan_pv1")] + [["read_settings_data"]]
+    et_set = [["read_setting", x] for x in ("battery_discharge_depth", "grid_export_limit", "work_mode", "grid_export", "battery_discharge_depth")] + [["get_ongrid_battery_dod"], ["get_operation_mode"]]
+    for a, b in (("DTs", "DT"), ("DT", "DTs"), ("DTs", "DTs"), ("ETs", "ET205"), ("ET205", "ETs"), ("ETs", "ET745")):
+        cs = dt_set if a.startswith("DT") else et_set
+        out.append({"seed": f"{seed}:capset:{a}:{b}", "n_random_merges": 2, "n_concurrent": 1, "capabilities": True, "settings_refused": True,
+                    "objects": [{"template": a, "port": 8899 if len(out) % 2 else 502, "seed": f"{seed}:sA{len(out)}", "calls": cs},
+                                {"template": b, "port": 8899, "seed": f"{seed}:sB{len(out)}", "calls": cs}]})
     for a, b in (("DTn", "DT"), ("DT", "DTn"), ("DTn", "DTn"), ("ETr", "ET205"), ("ET205", "ETr"), ("ETr", "ET745"), ("ETr", "ETr")):
         out.append({"seed": f"{seed}:cap:{a}:{b}", "n_random_merges": 2, "n_concurrent": 1, "capabilities": True,
                     "objects": [{"template": a, "port": 8899, "seed": f"{seed}:cA{len(out)}", "calls": rr},
